@@ -32,6 +32,12 @@ class Boom(Exception):
 def gen_payload(rng, kind, uid):
     import numpy as np
     import pandas as pd
+    if kind.startswith('json') and rng.random() < 0.12:
+        # bare falsy values are legal cached values (None only where the cache allows it); they carry no provenance, the typed comparison still applies
+        res_ = rng.choice([0, 0.0, False, '', [], {}, None])
+        if kind == 'json_nonone' and res_ is None:
+            res_ = 0
+        return res_
     if kind.startswith('json'):
         size = rng.choice([0, 0, 1, 3, 40])
         body = rng.choice([None, 1, -2 ** 63, 2 ** 64 - 1, 0.5, 'é\n', True, [], {}, {'a': [1, {'b': None}]}, [1.0, 1, False, '']])
